@@ -325,4 +325,58 @@ theorem heap_empty_of_no_ext (s : State) (hs : Inv s) (hext : ∀ i, s.ext i = 0
     have h2 := hpm q ((Heap.mem_keys_iff s.heap q).mpr (by simp [hq]))
     omega
 
+theorem Reach.tail {h : Heap} {a q i : Id} (haq : Reach h a q) (hi : i ∈ h.childrenOf q) : Reach h a i := by
+  induction haq with
+  | refl => exact Reach.step hi (Reach.refl i)
+  | step hc _ ih => exact Reach.step hc (ih hi)
+
+/-- every live node hangs, through container slots, below a node the caller holds a reference to -/
+theorem live_has_root (s : State) (hs : Inv s) (i : Id) (hl : (s.heap.get? i).isSome = true) :
+    ∃ root, 0 < s.ext root ∧ Reach s.heap root i := by
+  obtain ⟨r, hr⟩ := hs.acyclic
+  -- a bound on the ranks of live nodes
+  have hbound : ∀ (l : List Id), ∃ M, ∀ q ∈ l, r q ≤ M := by
+    intro l
+    induction l with
+    | nil => exact ⟨0, by simp⟩
+    | cons a l ih =>
+      obtain ⟨M, hM⟩ := ih
+      refine ⟨max M (r a), ?_⟩
+      intro q hq
+      rcases List.mem_cons.mp hq with e | hq'
+      · rw [e]; exact Nat.le_max_right _ _
+      · exact Nat.le_trans (hM q hq') (Nat.le_max_left _ _)
+  obtain ⟨M, hM⟩ := hbound s.heap.keys
+  have key : ∀ k i, (s.heap.get? i).isSome = true → M - r i ≤ k →
+      ∃ root, 0 < s.ext root ∧ Reach s.heap root i := by
+    intro k
+    induction k with
+    | zero =>
+      intro i hl hk
+      by_cases he : 0 < s.ext i
+      · exact ⟨i, he, Reach.refl i⟩
+      · exfalso
+        obtain ⟨n, hn⟩ := Option.isSome_iff_exists.mp hl
+        have hrc := hs.h.rc i n hn
+        have hpos := hs.h.pos i n hn
+        simp only [List.count_nil, Nat.add_zero] at hrc
+        obtain ⟨q, m, hq, hqm⟩ := Heap.edge_source s.heap hs.h.nodup i (by omega)
+        have h1 := hr q m hq i hqm
+        have h2 := hM q ((Heap.mem_keys_iff s.heap q).mpr (by simp [hq]))
+        omega
+    | succ k ih =>
+      intro i hl hk
+      by_cases he : 0 < s.ext i
+      · exact ⟨i, he, Reach.refl i⟩
+      · obtain ⟨n, hn⟩ := Option.isSome_iff_exists.mp hl
+        have hrc := hs.h.rc i n hn
+        have hpos := hs.h.pos i n hn
+        simp only [List.count_nil, Nat.add_zero] at hrc
+        obtain ⟨q, m, hq, hqm⟩ := Heap.edge_source s.heap hs.h.nodup i (by omega)
+        have h1 := hr q m hq i hqm
+        have h2 := hM q ((Heap.mem_keys_iff s.heap q).mpr (by simp [hq]))
+        obtain ⟨root, hroot, hreach⟩ := ih q (by simp [hq]) (by omega)
+        exact ⟨root, hroot, hreach.tail ((mem_childrenOf s.heap q i).mpr ⟨m, hq, hqm⟩)⟩
+  exact key (M - r i) i hl (Nat.le_refl _)
+
 end JsonC.Heap
